@@ -58,6 +58,10 @@ pub enum Spec17 {
     FrameAfterResize { channels: usize, new_size: usize, bytes: bool },
     /// Context::new(bps, channels) with a channel count outside 1..=8, then a fill
     ContextChannels { channels: usize, bytes: bool },
+    /// one out-of-range sample at position `t` of channel `ch` in a block of `filled` samples
+    /// (buffer / block size `block`); frame level, or the last block of a 2-full-blocks stream;
+    /// `cfgk`: 0 default, 1 no predictors, 2 verbatim only, 3 fixed order 0 only
+    BadSampleAt { stream: bool, mt: bool, channels: usize, block: usize, filled: usize, ch: usize, t: usize, cfgk: u8 },
     /// the stream-level entry point with an invalid argument and a source that holds `len`
     /// samples (0 = empty, 1, 5), with or without a length hint: an invalid argument is an error
     /// whether or not there is anything to encode
@@ -235,6 +239,51 @@ pub fn grid17() -> Vec<Spec17> {
             g.push(Spec17::ContextChannels { channels, bytes });
         }
     }
+    // an out-of-range sample at EVERY position of a block whose length is no multiple of any
+    // vector width (and at the positions around 8/16/64-sample boundaries of longer ones), under
+    // configurations that do no arithmetic on the samples as well as under the default
+    for (block, filled) in [(100usize, 100usize), (191, 191), (257, 65), (4096, 1000), (4097, 4097)] {
+        let ts: Vec<usize> = if filled <= 191 {
+            (0..filled).collect()
+        } else {
+            let mut v = vec![0usize, 1, 7, 8, 15, 16, 63, 64, 65, filled / 2];
+            for d in [65usize, 64, 63, 33, 32, 31, 17, 16, 15, 9, 8, 7, 3, 2, 1] {
+                v.push(filled - d);
+            }
+            v.push(filled - 1 - (filled - 1) % 64);
+            v.push(filled - filled % 64);
+            v.retain(|t| *t < filled);
+            v
+        };
+        for channels in [1usize, 2, 3] {
+            for ch in [0usize, channels - 1] {
+                if ch == 0 && channels > 1 && filled <= 191 && block != 100 {
+                    continue;
+                }
+                for (i, t) in ts.iter().enumerate() {
+                    let cfgks: Vec<u8> = if filled <= 191 { vec![((i + ch) % 4) as u8] } else { vec![0, 1, 2, 3] };
+                    for cfgk in cfgks {
+                        g.push(Spec17::BadSampleAt { stream: false, mt: false, channels, block, filled, ch, t: *t, cfgk });
+                    }
+                }
+            }
+        }
+    }
+    for mt in [false, true] {
+        for block in [100usize, 1000] {
+            for filled in [block, 37, 99] {
+                let mut ts = vec![0usize, filled / 2, filled - 1, filled - 2, filled - 1 - (filled - 1) % 64];
+                ts.dedup();
+                for t in ts {
+                    for channels in [1usize, 2] {
+                        for cfgk in 0..4u8 {
+                            g.push(Spec17::BadSampleAt { stream: true, mt, channels, block, filled, ch: channels - 1, t, cfgk });
+                        }
+                    }
+                }
+            }
+        }
+    }
     for bytes in [false, true] {
         for channels in [1usize, 2, 8] {
             for (cap, new_size) in [(100usize, 150usize), (150, 100), (64, 32), (32, 64), (4096, 32), (100, 101)] {
@@ -363,6 +412,7 @@ fn domain17(s: &Spec17) -> Dom {
                 Dom::Unlisted
             }
         }
+        Spec17::BadSampleAt { .. } => Dom::Invalid,
     }
 }
 
@@ -736,6 +786,53 @@ fn exec17(s: &Spec17) -> String {
                     Err(_) => "Err".into(),
                 }
             }
+            Spec17::BadSampleAt { stream, mt, channels, block, filled, ch, t, cfgk } => {
+                let sf = &mut cfg.subframe_coding;
+                match cfgk {
+                    1 => {
+                        sf.use_fixed = false;
+                        sf.use_lpc = false;
+                    }
+                    2 => {
+                        sf.use_fixed = false;
+                        sf.use_lpc = false;
+                        sf.use_constant = false;
+                    }
+                    3 => {
+                        sf.use_lpc = false;
+                        sf.fixed.max_order = 0;
+                        sf.fixed.order_sel = config::OrderSel::BitCount;
+                    }
+                    _ => {}
+                }
+                cfg.multithread = *mt;
+                cfg.block_size = *block;
+                let v = enc::verified(&cfg).unwrap();
+                // valid content that is not constant (a constant block would be stored as one value)
+                let valid = |n: usize| -> Vec<i32> { (0..n * channels).map(|i| ((i * 37) % 200) as i32 - 100).collect() };
+                if *stream {
+                    let len = 2 * block + filled;
+                    let mut samples = valid(len);
+                    samples[(2 * block + t) * channels + ch] = if t % 2 == 0 { 40_000 } else { -32_769 };
+                    let a = Arc::new(Audio { channels: *channels, bps: 16, rate: 44100, samples, recipe: "bad-sample-at".into() });
+                    let src = TestSource::new(a, FillMode::Int, t % 3 == 0);
+                    match flacenc::encode_with_fixed_block_size(&v, src, *block) {
+                        Ok(_) => "Ok".into(),
+                        Err(_) => "Err".into(),
+                    }
+                } else {
+                    let mut fb = FrameBuf::with_size(*channels, *block).unwrap();
+                    fb.fill_interleaved(&valid(*block)).unwrap();
+                    let mut d = valid(*filled);
+                    d[t * channels + ch] = if t % 2 == 0 { 32_768 } else { -40_000 };
+                    fb.fill_interleaved(&d).unwrap();
+                    let si = StreamInfo::new(44100, *channels, 16).unwrap();
+                    match flacenc::encode_fixed_size_frame(&v, &fb, 0, &si) {
+                        Ok(_) => "Ok".into(),
+                        Err(_) => "Err".into(),
+                    }
+                }
+            }
             Spec17::ContextChannels { channels, bytes } => {
                 let mut c = flacenc::source::Context::new(16, *channels);
                 let r = if *bytes { c.fill_le_bytes(&[1u8; 32], 2) } else { c.fill_interleaved(&[3i32; 16]) };
@@ -781,6 +878,7 @@ fn spec17_class(s: &Spec17) -> String {
         Spec17::FrameEmpty { channels, how, bytes } => format!("encode_fixed_size_frame(FrameBuf of {channels} ch x 64 {}, {})", ["never filled", "filled with an empty slice", "filled, then filled with an empty slice"][*how as usize], if *bytes { "bytes" } else { "ints" }),
         Spec17::FrameAfterResize { channels, new_size, bytes } => format!("FrameBuf::with_size(ch={channels},64) -> resize({}) -> {} of that many samples -> encode_fixed_size_frame", v(*new_size), if *bytes { "fill_le_bytes" } else { "fill_interleaved" }),
         Spec17::ContextChannels { channels, bytes } => format!("Context::new(16, channels={}) -> {}", v(*channels), if *bytes { "fill_le_bytes" } else { "fill_interleaved" }),
+        Spec17::BadSampleAt { stream, mt, channels, block, filled, ch, t, cfgk } => format!("{}({channels} ch x 16 bit, block {block}, {filled} samples in the block, out-of-range sample at {t} of channel {ch}, config {})", if *stream { if *mt { "encode_with_fixed_block_size[mt]" } else { "encode_with_fixed_block_size[st]" } } else { "encode_fixed_size_frame" }, ["default", "no predictors", "verbatim only", "fixed order 0 only"][*cfgk as usize]),
         Spec17::StreamEncShort { mt, channels, bps, rate, block, len, hint } => format!("encode_with_fixed_block_size[{}](ch={},bps={},rate={},block={}; source of {len} samples, {})", if *mt { "mt" } else { "st" }, v(*channels), v(*bps), v(*rate), v(*block), if *hint { "with length hint" } else { "no hint" }),
     }
 }
@@ -833,6 +931,7 @@ fn spec17_sig(s: &Spec17, outcome: &str) -> String {
         Spec17::FrameEmpty { .. } => "encode_frame|empty-buffer".into(),
         Spec17::FrameAfterResize { new_size, .. } => format!("FrameBuf::resize+encode_frame|{}", if *new_size == 0 { "size0" } else { "block-size" }),
         Spec17::ContextChannels { .. } => "Context::fill|channels".into(),
+        Spec17::BadSampleAt { stream, mt, cfgk, .. } => format!("{}|sample-at-position|{}", if *stream { if *mt { "encode_stream[mt]" } else { "encode_stream[st]" } } else { "encode_frame" }, ["default-config", "no-predictors", "verbatim-only", "fixed0-only"][*cfgk as usize]),
         Spec17::StreamEncShort { mt, len, .. } => format!("encode_stream[{}]|invalid-argument+{}", if *mt { "mt" } else { "st" }, if *len == 0 { "empty-source" } else { "tiny-source" }),
     };
     format!("C17|{what}|{kind}")
